@@ -124,8 +124,35 @@ def _rows_in(parent_rows, child_rows):
 DEFAULT_BUTTER = {"N": 3, "Wn": 0.1, "btype": "highpass"}
 
 
+NOT_A_NUMBER = -999999          # a setting that is no finite number of moderate size (TLC integers are 32-bit): nobody's setting
+NOT_A_SHIFT = -10 ** 6
+
+
+def _sint(f):
+    """f() -> integer for TLC. The settings of a child call are what the *library* handed over: `None`, a string, an array, NaN,
+    10^12 where a number belongs are observed as NOT_A_NUMBER (which is never the caller's setting), not as a harness failure"""
+    try:
+        v = float(f())
+        return int(v) if np.isfinite(v) and abs(v) < 2 ** 31 - 1 else NOT_A_NUMBER
+    except Exception:  # noqa
+        return NOT_A_NUMBER
+
+
+def _sjson(f):
+    """f() -> canonical text of a settings container; containers that hold NumPy scalars / arrays (not JSON) are spelled through
+    tolist() - np.float32(0.1) is another number than 0.1 and reads so - and anything else through its repr"""
+    try:
+        v = f()
+        try:
+            return json.dumps(v, sort_keys=True)
+        except (TypeError, ValueError):
+            return json.dumps(v, sort_keys=True, default=lambda o: o.tolist() if hasattr(o, "tolist") else repr(o))
+    except Exception as ex:  # noqa
+        return f"undecodable ({type(ex).__name__})"
+
+
 def _abs_settings(fn, a):
-    """effective arguments of a call -> abstract settings record (ints / strings) used by the specification"""
+    """effective arguments of a call -> abstract settings record (ints / strings) used by the specification (total: see _sint)"""
     if a.get("_unbound"):
         return {"unbound": 1}
     if fn == "car":
@@ -133,12 +160,39 @@ def _abs_settings(fn, a):
     if fn == "kfilt":
         bk = a.get("butter_kwargs")
         bk = DEFAULT_BUTTER if bk is None else bk
-        return {"butter": json.dumps(bk, sort_keys=True), "lagc": int(a["lagc"] or 0),
-                "ntr_pad": int(a["ntr_pad"]), "ntr_tap": -1 if a["ntr_tap"] is None else int(a["ntr_tap"])}
-    return {"vbounds": json.dumps(list(a["vbounds"])) if a["vbounds"] is not None else "none",
-            "btype": str(a["btype"]).lower(), "kfilt": json.dumps(a["kfilt"], sort_keys=True) if a["kfilt"] else "none",
-            "lagc": int(round((a["lagc"] or 0) * 1e6)), "si": int(round(a["si"] * 1e6)), "dx": int(round(a["dx"] * 1000)),
-            "ntr_pad": int(a["ntr_pad"]), "ntr_tap": -1 if a["ntr_tap"] is None else int(a["ntr_tap"])}
+        return {"butter": _sjson(lambda: bk), "lagc": _sint(lambda: a["lagc"] or 0),
+                "ntr_pad": _sint(lambda: a["ntr_pad"]), "ntr_tap": -1 if a.get("ntr_tap") is None else _sint(lambda: a["ntr_tap"])}
+    return {"vbounds": _sjson(lambda: list(a["vbounds"])) if a.get("vbounds") is not None else "none",
+            "btype": str(a.get("btype")).lower(), "kfilt": _sjson(lambda: a["kfilt"]) if _truth(a.get("kfilt")) else "none",
+            "lagc": _sint(lambda: round((a["lagc"] or 0) * 1e6)), "si": _sint(lambda: round(a["si"] * 1e6)),
+            "dx": _sint(lambda: round(a["dx"] * 1000)),
+            "ntr_pad": _sint(lambda: a["ntr_pad"]), "ntr_tap": -1 if a.get("ntr_tap") is None else _sint(lambda: a["ntr_tap"])}
+
+
+def _truth(v):
+    try:
+        return bool(v)
+    except Exception:  # noqa   (an array where a dictionary or None belongs)
+        return True
+
+
+def _as_real(v, shape):
+    """what the library returned where the property promises a real array of `shape`, observed defensively:
+    (float64 array, "") or (None, why). A list / an array of another real element type with the right values is the right value;
+    None, another shape, one more dimension, strings / objects, complex numbers with an imaginary part are not."""
+    try:
+        a = np.asarray(v)
+        if a.shape != tuple(shape):
+            return None, f"returned {type(v).__name__} of shape {a.shape} where {tuple(shape)} is promised"
+        if a.dtype.kind == "c":
+            if np.any(a.imag != 0):
+                return None, "returned complex values"
+            a = a.real
+        if a.dtype.kind not in "fiub":
+            return None, f"returned element type {a.dtype}"
+        return np.asarray(a, dtype=np.float64), ""
+    except Exception as ex:  # noqa
+        return None, f"returned {type(v).__name__} that is no array ({type(ex).__name__}: {ex})"
 
 
 def _even_fft(nsx, nsw):
@@ -294,14 +348,20 @@ def calltree_experiment(fn, settings, grouping, seed, opts=None):
     scale = float(np.max(np.abs(x)))
     # single precision in: results are compared to single-precision rounding (the group call stores into an array of the input's type)
     rtol, atol, ztol = (1e-4, 1e-5 * scale, 1e-5 * scale) if f4 else (1e-7, 1e-9 * scale, 1e-9 * scale)
-    ok_alone = np.shape(out) == x.shape
+    # the returned values are observed defensively (_as_real): None, a list of lists, another shape / element type where the
+    # filtered array is promised is the negative observation of EqualsAlone, not a failure of this harness
+    out, why = _as_real(out, x.shape)
+    ok_alone = out is not None
+    if not ok_alone:
+        rec["exc"] = f"{fn} with groups {why}"
     ok_zero = True
     for g, (sel, res) in alone.items():
-        if np.shape(out) != x.shape:
+        if out is None:
             break
-        ok_alone = ok_alone and any(np.shape(a) == np.shape(out[sel]) and np.allclose(out[sel], a, rtol=rtol, atol=atol) for a in res)
+        res = [_as_real(a, out[sel].shape)[0] for a in res]
+        ok_alone = ok_alone and any(a is not None and np.allclose(out[sel], a, rtol=rtol, atol=atol) for a in res)
         if fn == "car":
-            o = np.asarray(out[sel], dtype=np.float64)
+            o = out[sel]
             ref = np.median(o, axis=0) if kw["operator"] == "median" else np.mean(o, axis=0)
             ok_zero = ok_zero and bool(np.max(np.abs(ref)) <= ztol)
     rec["alone"] = "ok" if ok_alone else "bad"
@@ -402,6 +462,23 @@ def _skew(gen):
     return np.array(t["tick"], dtype=float) / t["cycles"], t["cycles"]
 
 
+def _ticks(s, cycles):
+    """a vector of delays in samples, as the library holds / hands it -> (delays in ticks, integer numerators for TLC, whether all
+    are whole ticks). An entry that is no finite real number of moderate size (NaN, inf, None, a complex number) reads NOT_A_SHIFT and
+    the vector is not exact; a value that is no vector of numbers at all reads as the empty vector"""
+    try:
+        s = np.atleast_1d(np.asarray(s)).ravel()
+        if s.dtype.kind == "c":
+            s = np.where(s.imag == 0, s.real, np.nan)
+        s = s.astype(float) * cycles
+    except Exception:  # noqa
+        return np.zeros(0), [], False
+    ok = np.isfinite(s) & (np.abs(s) < 1e9)
+    r = np.round(np.where(ok, s, 0.0))
+    shift = [int(v) if g else NOT_A_SHIFT for v, g in zip(r, ok)]
+    return s, shift, bool(np.all(ok)) and bool(np.all(np.abs(np.where(ok, s, 0.0) - r) < 1e-9))
+
+
 def _pipeline_events(events, cycles):
     """recorded calls of a destripe run -> stage events + the shift vector"""
     out, shift, exact = [], [], True
@@ -409,16 +486,15 @@ def _pipeline_events(events, cycles):
     for e in top:
         a = e["args"]
         if e["name"] == "sosfiltfilt":
-            out.append(["hp", int(a.get("axis", -1))])
+            out.append(["hp", _sint(lambda: a.get("axis", -1))])
         elif e["name"] == "fshift":
-            s = np.atleast_1d(np.asarray(a["s"], dtype=float)) * cycles
-            shift = [int(v) for v in np.round(s)]
-            exact = bool(np.all(np.abs(s - np.round(s)) < 1e-9)) and int(a["axis"]) in (1, -1)
-            out.append(["realign", int(a["axis"])])
+            s, shift, exact = _ticks(a.get("s"), cycles)
+            exact = exact and _sint(lambda: a["axis"]) in (1, -1)
+            out.append(["realign", _sint(lambda: a["axis"])])
         elif e["name"] == "interpolate_bad_channels":
             out.append(["interp", 0])
         elif e["name"] in ("car", "kfilt", "fk"):
-            out.append(["spatial", e["name"], int(np.shape(a.get("x"))[0])])
+            out.append(["spatial", e["name"], _sint(lambda: np.shape(a.get("x"))[0])])
     return out, shift, exact
 
 
@@ -561,6 +637,13 @@ def _prior_calls(sc, shared):
             pass
 
 
+def _pipe_rec(sc, nlabels=0, ninside=NC, exc=""):
+    """the record of a pipeline experiment before anything was observed: no event, nothing removed, nothing kept"""
+    return {"kind": "pipeline", "gen": GENKEY[sc["gen"]], "probe": sc["gen"], "scenario": sc, "events": [], "shift": [], "exact": False,
+            "nlabels": nlabels, "ninside": ninside,
+            "removed": "bad", "kept": "bad", "zero": "na", "att_db": None, "kept_min": None, "exc": exc, "unbound": False}
+
+
 def pipeline_experiment(sc):
     """one scenario (generation x variant x stream x label class x seed) on the real destripe.
     optional keys: ns (record length), dtype f8 / f4, layout of x (C / F / strided view / read-only), lab_dtype, spatial
@@ -574,7 +657,15 @@ def pipeline_experiment(sc):
     ns = _pipe_len(sc)
     skew, cycles = _skew(gen)
     shared = {"h": {}}
-    h = shared["h"].setdefault(gen, _header(gen))
+    try:
+        # the header is the library's too (neuropixel.trace_header): one that cannot be had, or whose 'shank' column cannot spell
+        # the channel groups of the call, is an observation (no run, no re-alignment seen), not a failure of this harness
+        h = shared["h"].setdefault(gen, _header(gen))
+        kwg = _spatial_kwargs(sc, h)
+        if kwg is not None and "collection" in kwg and np.shape(kwg["collection"]) != (NC,):
+            raise ValueError(f"channel groups of shape {np.shape(kwg['collection'])} from the header")
+    except Exception as ex:  # noqa
+        return _pipe_rec(sc, exc=f"trace_header: {type(ex).__name__}: {ex}")
     labels = _labels_for(sc, rng)
     haslab = isinstance(labels, np.ndarray)
     t = np.arange(ns, dtype=float)
@@ -601,7 +692,6 @@ def pipeline_experiment(sc):
     # call (ntr_pad=0, hard-wired), so that a spike on the first / last rows of a group sits on the edge of a long spatial
     # high-pass; those depths are left out of the Kept measurement of this mode only (reported, DESIGN 9.7)
     edge = None
-    kwg = _spatial_kwargs(sc, h)
     if sc["variant"] == "kfilt" and kwg is not None and "collection" in kwg and not haslab:
         col = np.asarray(kwg["collection"])
         edge = np.zeros(NC, dtype=bool)
@@ -618,9 +708,7 @@ def pipeline_experiment(sc):
         for dc, am in ((-1, 0.5), (0, 1.0), (1, 0.5)):
             spk[ch + dc] += samp * am * spike(t + skew[ch + dc] - t0)
         cents.append((ch, t0))
-    rec = {"kind": "pipeline", "gen": GENKEY[gen], "probe": gen, "scenario": sc, "events": [], "shift": [], "exact": False,
-           "nlabels": NC if haslab else 0, "ninside": int(np.sum(labels != 3)) if haslab else NC,
-           "removed": "bad", "kept": "bad", "zero": "na", "att_db": None, "kept_min": None, "exc": "", "unbound": False}
+    rec = _pipe_rec(sc, nlabels=NC if haslab else 0, ninside=int(np.sum(labels != 3)) if haslab else NC)
     dt = np.float32 if sc.get("dtype") == "f4" else np.float64
     layout = sc.get("layout", "C")
     x, xs = x.astype(dt), (x + spk).astype(dt)                      # what the caller holds (the references below start from it)
@@ -661,10 +749,14 @@ def pipeline_experiment(sc):
     ins = np.arange(NC) if not haslab else np.where(pristine != 3)[0]
     sl = slice(ns // 8, ns - ns // 8)
     ref = scipy.signal.sosfiltfilt(sos, xclean.astype(np.float64))
-    if np.shape(y) != x.shape or np.shape(y2) != x.shape:
-        rec["exc"] = f"output shapes {np.shape(y)}, {np.shape(y2)}"
+    # what came back is observed defensively (_as_real): None, a list of another shape, one more dimension, strings / objects,
+    # complex values where the destriped array is promised leave Removed / Kept at their negative observation
+    ydt = getattr(y, "dtype", np.dtype(np.float64))
+    (y, why), (y2, why2) = _as_real(y, x.shape), _as_real(y2, x.shape)
+    if y is None or y2 is None:
+        rec["exc"] = f"destripe {why or why2}"
         return rec
-    att = 20 * np.log10(max(float(utils.rms(np.asarray(y, dtype=np.float64)[ins][:, sl].ravel())), 1e-300) / float(utils.rms(ref[ins][:, sl].ravel())))
+    att = 20 * np.log10(max(float(utils.rms(y[ins][:, sl].ravel())), 1e-300) / float(utils.rms(ref[ins][:, sl].ravel())))
     rec["att_db"] = round(att, 1)
     rec["removed"] = "ok" if att <= -40 else "bad"
     if sc["variant"] == "car":
@@ -672,8 +764,8 @@ def pipeline_experiment(sc):
         col = kw0.get("collection")
         rows = [ins] if col is None else [np.where(np.asarray(col) == g)[0] for g in np.unique(col)]
         fn = np.mean if kw0.get("operator", "median") == "average" else np.median
-        worst = max(float(np.max(np.abs(fn(np.asarray(y, dtype=np.float64)[g], axis=0)))) for g in rows)
-        ztol = 1e-9 if np.asarray(y).dtype == np.float64 else 1e-5          # rounding of the type the result comes in
+        worst = max(float(np.max(np.abs(fn(y[g], axis=0)))) for g in rows)
+        ztol = 1e-9 if ydt == np.float64 else 1e-5          # rounding of the type the result comes in
         rec["zero"] = "ok" if worst <= ztol * float(np.max(np.abs(ref))) else "bad"
     refs = scipy.signal.sosfiltfilt(sos, spk)
     kept = [float(np.ptp(y2[ch, t0 - 40:t0 + 60]) / np.ptp(refs[ch, t0 - 40:t0 + 60])) for ch, t0 in cents]
@@ -687,7 +779,6 @@ def flow_experiment(sc):
     import scipy.signal
     rng = np.random.default_rng(sc["seed"])
     gen = sc["gen"]
-    h = _header(gen)
     _, cycles = _skew(gen)
     lab6 = sc["labels6"]
     labels = np.repeat(np.array(lab6), BLK).astype({"int": int, "float": float, "i1": np.int8}[sc.get("lab_dtype", "int")])
@@ -696,10 +787,18 @@ def flow_experiment(sc):
     x = rng.standard_normal((NC, ns)) * 1e-5 + rng.standard_normal((1, ns)) * 3e-5
     rec = {"kind": "flow", "gen": GENKEY[gen], "probe": gen, "scenario": sc, "labels": list(lab6), "perturb": [], "exc": ""}
     scd = dict(sc, stream="ap")
+
+    def real(v):        # the destriped array, observed defensively (see _as_real)
+        a, why = _as_real(v, x.shape)
+        if a is None:
+            raise ValueError(f"destripe {why}")
+        return a
+
     try:
         with warnings.catch_warnings():
             warnings.simplefilter("ignore")
-            y = _call_destripe(x.copy(), scd, h, labels)
+            h = _header(gen)
+            y = real(_call_destripe(x.copy(), scd, h, labels))
             pre = scipy.signal.sosfiltfilt(_butter_sos("ap"), x)
             from ibldsp.fourier import fshift
             pre = fshift(pre, h["sample_shift"], axis=1)        # the unfiltered path of an outside channel
@@ -707,7 +806,7 @@ def flow_experiment(sc):
                 xp = x.copy()
                 rows = slice(j * BLK, (j + 1) * BLK)
                 xp[rows] += rng.standard_normal((BLK, ns)) * 2e-5
-                yp = _call_destripe(xp.copy(), scd, h, labels)
+                yp = real(_call_destripe(xp.copy(), scd, h, labels))
                 d = np.max(np.abs(yp - y).reshape(NB, BLK, ns), axis=(1, 2)) / 1e-5
                 changed = [int(b) for b in range(NB) if d[b] > 1e-9]
                 prep = fshift(scipy.signal.sosfiltfilt(_butter_sos("ap"), xp[rows]), h["sample_shift"][rows], axis=1)
@@ -715,6 +814,43 @@ def flow_experiment(sc):
                 rec["perturb"].append({"j": int(j), "changed": changed, "own_unfiltered": own})
     except Exception as ex:  # noqa
         rec["exc"] = f"{type(ex).__name__}: {ex}"
+        # the call raised (or returned no array): for the perturbations not answered, nothing shows that the outside block stayed
+        # out of the others or came back as its own unfiltered input - the negative observation of NoLeak / OwnInputOnly
+        done = {e["j"] for e in rec["perturb"]}
+        rec["perturb"] += [{"j": int(j), "changed": [b for b in range(NB) if b != j], "own_unfiltered": False}
+                           for j in sc["perturb"] if j not in done]
+    return rec
+
+
+def _overwrite(a):
+    """the owner of a table handed out earlier changes it in place (sorting, unit conversion), whatever kind of container it is"""
+    try:
+        if isinstance(a, np.ndarray):
+            a[...] = a[::-1].copy() + 1
+        elif isinstance(a, list):
+            a[:] = [v + 1 for v in a[::-1]]
+    except Exception:  # noqa   (read-only, not numeric: then the owner cannot change it either)
+        pass
+
+
+def _adc_record(gen, version, nwant, get):
+    """get() -> (sample_shift, adc) of the library, observed defensively. Whatever is no pair of vectors of `nwant` finite numbers -
+    the call raised, returned None / one array / vectors of another length or dimension, NaN, complex delays, a header without
+    the column - is the observation 'not a table of whole ticks' (exact false, the clause Aligned), with vectors TLC can read
+    (nc = the entries that are there; adc padded / cut to nc)"""
+    cyc = _ADC[gen]["cycles"]
+    rec = {"kind": "adc", "gen": gen, "version": version, "nc": 0, "shift": [], "adc": [], "exact": False, "exc": ""}
+    try:
+        ss, adc = get()
+        why = "" if np.ndim(ss) == 1 and np.ndim(adc) == 1 else f"delays / adc of shapes {np.shape(ss)}, {np.shape(adc)}"
+        _, shift, exact = _ticks(ss, cyc)
+        adc = [_sint(lambda: a) for a in np.asarray(adc).ravel()]
+    except Exception as ex:  # noqa
+        rec["exc"] = f"{type(ex).__name__}: {ex}"
+        return rec
+    if not why and (len(shift) != nwant or len(adc) != nwant):
+        why = f"{len(shift)} delays, {len(adc)} adc numbers where {nwant} channels were asked for"
+    rec.update(nc=len(shift), shift=shift, adc=(adc + [NOT_A_NUMBER] * len(shift))[:len(shift)], exact=bool(exact and not why), exc=why)
     return rec
 
 
@@ -723,25 +859,21 @@ def adc_records():
     recs = []
     for gen, v in (("NP1", 1), ("NP2", 2), ("NP2", 2.4), ("NP2", 2.1), ("NPultra", "NPultra")):
         for nc in (384, 385, 96, 13):
-            ss, adc = neuropixel.adc_shifts(version=v, nc=nc)
-            if nc in (384, 96):
-                # the owner of an earlier table changes it (sorting, unit conversion): the next table is a fresh one
-                ss += 1.0
-                adc[:] = adc[::-1].copy()
-                ss, adc = neuropixel.adc_shifts(version=v, nc=nc)
-            cyc = _ADC[gen]["cycles"]
-            n = min(nc, 384)
-            recs.append({"kind": "adc", "gen": gen, "version": str(v), "nc": int(len(ss)) if len(ss) != n else n,
-                         "shift": [int(round(float(s) * cyc)) for s in ss], "adc": [int(a) for a in adc],
-                         "exact": bool(np.all(np.abs(np.asarray(ss) * cyc - np.round(np.asarray(ss) * cyc)) < 1e-9))})
-        hs = neuropixel.trace_header(version=v if v != 2.4 else 2, nshank=4 if v == 2.4 else 1)
-        for k in hs:
-            hs[k] *= 0
-        hs = neuropixel.trace_header(version=v if v != 2.4 else 2, nshank=4 if v == 2.4 else 1)
-        ss = hs["sample_shift"]
-        recs.append({"kind": "adc", "gen": gen, "version": f"trace_header({v})", "nc": int(len(ss)),
-                     "shift": [int(round(float(s) * cyc)) for s in ss], "adc": [int(a) for a in hs["adc"]],
-                     "exact": bool(np.all(np.abs(np.asarray(ss) * cyc - np.round(np.asarray(ss) * cyc)) < 1e-9))})
+            def get():
+                if nc in (384, 96):
+                    # the owner of an earlier table changes it (sorting, unit conversion): the next table is a fresh one
+                    for a in neuropixel.adc_shifts(version=v, nc=nc):
+                        _overwrite(a)
+                return neuropixel.adc_shifts(version=v, nc=nc)
+            recs.append(_adc_record(gen, str(v), min(nc, 384), get))
+
+        def get_header():
+            kw = dict(version=v if v != 2.4 else 2, nshank=4 if v == 2.4 else 1)
+            for a in neuropixel.trace_header(**kw).values():
+                _overwrite(a)
+            hs = neuropixel.trace_header(**kw)
+            return hs["sample_shift"], hs["adc"]
+        recs.append(_adc_record(gen, f"trace_header({v})", 384, get_header))
     return recs
 
 
@@ -787,7 +919,7 @@ def _describe(t):
     if t["kind"] == "flow":
         return f"destripe {t['probe']} {t['scenario']['variant']} block labels {t['labels']} perturbations {t['perturb']} {t['exc']}"
     if t["kind"] == "adc":
-        return f"adc_shifts {t['version']} nc={t['nc']}"
+        return f"adc_shifts {t['version']} nc={t['nc']} {t.get('exc', '')}".rstrip()
     return f"agc nc={t['nc']} ns={t['ns']} wl={t['wl']} si={t['si']} dead={t['ndead']} f32={t['f32']} {json.dumps(t.get('opts') or {}, sort_keys=True)}"
 
 
